@@ -481,5 +481,25 @@ func builtinPrograms() []*Program {
 			"billing/v1/invoice.j5s": j5s("package billing.v1", "import shop.v1", "", "object Invoice {", "  field order object:shop.v1.Order", "  field refund object:shop.v1.Refund", "}"),
 		},
 	})
+
+	// 9. references that are not package dependencies: an entity key with a bare foreign reference
+	// (entity name only) to an entity that lives in a package the referring package does not
+	// import; a third package imports both.
+	ent := func(pkg, name string, extra ...string) string {
+		lines := []string{"package " + pkg, "", "entity " + name + " {", "  key " + strings.ToLower(name) + "Id key:id62 {", "    primary = true", "  }"}
+		lines = append(lines, extra...)
+		lines = append(lines, "  data name string", "  status ACTIVE", "  status ARCHIVED", "  event Create {", "    field name string", "  }", "}")
+		return j5s(lines...)
+	}
+	out = append(out, &Program{
+		Name:     "builtin/foreign_refs",
+		Packages: []string{"api.v1", "child.v1", "parent.v1"},
+		Files: map[string]string{
+			"parent/v1/parent.j5s": ent("parent.v1", "Parent"),
+			"child/v1/child.j5s":   ent("child.v1", "Child", "  key parentId key:id62 {", "    foreign = parent", "  }"),
+			"api/v1/api.j5s": j5s("package api.v1", "import child.v1", "import parent.v1", "", "object Family {",
+				"  field child object:child.ChildState", "  field parent object:parent.ParentState", "}"),
+		},
+	})
 	return out
 }
